@@ -38,6 +38,9 @@ type SrvQuery struct {
 	SleepMs int  `json:"sleep_ms,omitempty"`
 	// Hdr varies the header bits a response echoes from its query: bit 0 clears RD, bit 1 sets CD
 	Hdr int `json:"hdr,omitempty"`
+	// Opt adds an EDNS option the server does not know (needs EDNS): 1 COOKIE, 2 NSID, 3 PADDING.
+	// Unknown options are ignored: the answer is the one a query without them gets
+	Opt int `json:"opt,omitempty"`
 }
 
 var srvECS = []string{"10.1.9.0/24", "10.2.9.0/24", "198.51.100.0/24", "2001:db8:1::/48"}
@@ -60,6 +63,7 @@ type SrvOp struct {
 	Fault   string `json:"fault,omitempty"` // "", "missing", "garbage", "nokey", "inject", "lowio" (the low-level catch-up call of a RocksDB partial reload fails)
 	DelayMs int    `json:"delay_ms,omitempty"`
 	After   bool   `json:"after,omitempty"`
+	Low     bool   `json:"low,omitempty"`   // RocksDB partial reload: the delay is spent inside the low-level catch-up call (a slow disk)
 	Decoy   bool   `json:"decoy,omitempty"` // after a successful switch, republish the path served before with a decoy generation
 	// Target of a full reload: 0 = a fresh path; 1 = the path of the previous full reload if that one
 	// failed (made valid first: "retry the switch"); 2 = the path already served (republished)
@@ -434,6 +438,16 @@ func runSrv(t *testing.T, sc *SrvScenario, keep bool, res *core.Result, hooks *s
 					if q.BadVers {
 						rec.Req.IsEdns0().SetVersion(1)
 					}
+					if o := rec.Req.IsEdns0(); o != nil && q.Opt > 0 {
+						switch q.Opt {
+						case 1:
+							o.Option = append(o.Option, &dns.EDNS0_COOKIE{Code: dns.EDNS0COOKIE, Cookie: "24a5ac1223344556"})
+						case 2:
+							o.Option = append(o.Option, &dns.EDNS0_NSID{Code: dns.EDNS0NSID, Nsid: ""})
+						default:
+							o.Option = append(o.Option, &dns.EDNS0_PADDING{Padding: make([]byte, 12)})
+						}
+					}
 					if q.Hdr&1 != 0 {
 						rec.Req.RecursionDesired = false
 					}
@@ -750,7 +764,12 @@ func runSrv(t *testing.T, sc *SrvScenario, keep bool, res *core.Result, hooks *s
 				}
 				rec.Pub = s.Seq()
 				plan := mon.ReloadPlan{Fail: o.Fault == "inject", FailLow: o.Fault == "lowio"}
-				if o.After {
+				if o.Low && !o.Full && sc.Backend != "cdb" {
+					plan.SlowLow = time.Duration(o.DelayMs) * time.Millisecond
+					if o.DelayMs > 0 {
+						res.Probe("catch_up_slow_inside_the_store")
+					}
+				} else if o.After {
 					plan.DelayAfter = time.Duration(o.DelayMs) * time.Millisecond
 				} else {
 					plan.DelayBefore = time.Duration(o.DelayMs) * time.Millisecond
@@ -979,6 +998,9 @@ func drawSrv(rt *rapid.T, o srvDrawOpts) SrvScenario {
 		if o.badvers && rapid.IntRange(0, 11).Draw(rt, "badvers") == 0 {
 			q.BadVers = true
 		}
+		if o.ecs && q.EDNS && !q.BadVers && rapid.IntRange(0, 3).Draw(rt, "edns_opt") == 0 {
+			q.Opt = rapid.IntRange(1, 3).Draw(rt, "opt")
+		}
 		if o.ecs && rapid.IntRange(0, 3).Draw(rt, "hdr_bits") == 0 {
 			q.Hdr = rapid.IntRange(1, 3).Draw(rt, "hdr")
 		}
@@ -1002,6 +1024,7 @@ func drawSrv(rt *rapid.T, o srvDrawOpts) SrvScenario {
 		}
 		op.DelayMs = rapid.SampledFrom([]int{0, 0, 0, 0, 7, 23, 61, 97}).Draw(rt, "delay")
 		op.After = rapid.Bool().Draw(rt, "after")
+		op.Low = backend != "cdb" && !op.Full && rapid.IntRange(0, 2).Draw(rt, "low") == 0
 		op.Decoy = op.Full && rapid.Bool().Draw(rt, "decoy")
 		if op.Full && op.Fault == "" {
 			op.SamePath = rapid.SampledFrom([]int{0, 0, 0, 1, 1, 2}).Draw(rt, "same_path")
